@@ -15,7 +15,7 @@ def run(chk):
     chk.assumptions = ['single-threaded histories (the property\'s quantifier); concurrent frees are C02', 'release configuration for the correspondence; release and MI_DEBUG=2 builds for the oracle']
     chk.extra['rule'] = ('obligations = theorems of Props/C01.lean; evaluations = micro-steps of real pages / the real segment replayed by the models + snapshot pages evaluated + API calls checked by the shadow oracle; '
                          'distinct = distinct oracle runs + correspondence lines')
-    chk.lean('MiVerif.Props.C01', groups=['Loops'])
+    chk.lean('MiVerif.Props.C01', groups=['Loops', 'Arith'])
     okd, exe, log = V.build_driver()
     if not okd:
         chk.broken_tie('lean driver does not build', log[-1500:])
@@ -51,6 +51,20 @@ def run(chk):
                 for l in [x for x in t.splitlines() if x.startswith('PG ')][5:8]:
                     chk.sample(l[:160])
             chk.log('correspondence: %d micro-steps, %d snapshot pages' % (steps, snaps))
+            # implementation-side oracle for the page level: every small / medium size class with several pages filled to capacity
+            fj = [([h, 'fill', str(sd), '0'], None, 120) for sd in seeds]
+            nfill = 0
+            for (cmd, _, _), (rc, out, err) in zip(fj, V.pmap(fj)):
+                args = {'cmd': 'harness/c01 ' + ' '.join(cmd[1:]), 'how_to_run': 'gcc -DNDEBUG -DMI_BUILD_RELEASE -I/repo/include -I/repo/src -DVERIF_STATIC_C=\\"/repo/src/static.c\\" harness/c01.c -lpthread; ./a.out ' + ' '.join(cmd[1:])}
+                if rc != 0 or 'DONE' not in out:
+                    chk.violation('C01/fill-crash', 'allocator crashed while pages were filled to capacity (%s): %s' % (' '.join(cmd[1:]), (err or out)[-300:].replace('\n', ' ')), args); continue
+                for l in out.splitlines():
+                    if l.startswith('FAIL'):
+                        chk.violation('C01/' + l.split()[1], 'real allocator, pages filled to capacity (%s): %s' % (' '.join(cmd[1:]), l[5:300]), args)
+                    elif l.startswith('FILL'):
+                        nfill += int(l.split()[2]); chk.count(int(l.split()[2]))
+            chk.extra['blocks_in_filled_pages_checked'] = nfill
+            chk.log('filled pages: %d live blocks checked for overlap and contents' % nfill)
             # translator validation of the loop translation: the real mi_page_free_list_extend (area, capacity, block size, count, old
             # list -> the chain it builds) against the regenerated function (Gen/Loops.lean), its stores interpreted by the definitions the
             # theorems use (ExtendL.freeAfter / nextAfter)
